@@ -28,26 +28,31 @@ DIMS = {
     'mag': ['tau1', 'thin', 'mixed', 'sat'],
     'N': [3, 2, 5],
     'T': [['dec'], ['iso', 1000.0], ['nonmono'], ['outside']],
-    'contribs': [['abs'], ['abs', 'ray'], ['ray', 'abs']],
+    # 'flat': grey haze over the whole atmosphere (both bounds unset) of 2e-31 m2 per particle
+    'contribs': [['abs'], ['abs', 'ray'], ['ray', 'abs'], ['abs', 'ray', 'flat'], ['flat', 'abs']],
     'path': ['old', 'new'],
     'ngauss': [2, 3],
     # second molecule tabulated on its own, coarser and shifted wavenumber grid
     # ... or on a grid with as many points and the same first and last point as the model grid, spaced differently
-    'grids': ['same', 'different', 'same-ends'],
+    # ... or on a coarser grid that starts above / ends below the model grid (requests reach beyond the table)
+    'grids': ['same', 'different', 'same-ends', 'higher-start', 'lower-end'],
 }
 MAGS = {'thin': (1e-33, None), 'tau1': (1e-27, None), 'mixed': (1.0, [1e-33, 1e-27, 1e-24, 1e-18]),
         'sat': (1e-18, None)}
 
 
 WN2 = [800.0, 2300.0, 4300.0]
+FLAT = 2e-31
 WN3 = [1000.0, 1600.0, 2800.0, 4000.0]
+WN4 = [1800.0, 2900.0, 4000.0]
+WN5 = [1000.0, 2100.0, 3200.0]
 
 
 def base_tables(case):
     mag, per = MAGS[case['mag']]
     tabs = {}
     for mol, f in (('H2O', 1.0), ('CH4', 0.37)):
-        if mol == 'CH4' and case.get('grids') == 'different':
+        if mol == 'CH4' and case.get('grids') in ('different', 'higher-start', 'lower-end'):
             per2 = None if per is None else [per[0], per[2], per[3]]
             tabs[mol] = fx.table(3, 3, 3, 1.0, salt=('c20', mol, 'g2'), pattern='generic', per_wn=per2) * mag * f
         elif mol == 'CH4' and case.get('grids') == 'same-ends':
@@ -62,6 +67,10 @@ def grid_of(case, mol):
         return WN2
     if mol == 'CH4' and case.get('grids') == 'same-ends':
         return WN3
+    if mol == 'CH4' and case.get('grids') == 'higher-start':
+        return WN4
+    if mol == 'CH4' and case.get('grids') == 'lower-end':
+        return WN5
     return WN
 
 
@@ -76,7 +85,7 @@ def gmult(case):
 def spec_of(case):
     return {'kind': case['kind'], 'N': case['N'], 'T': case['T'], 'ngauss': case['ngauss'],
             'path': case['path'], 'gases': [['H2O', ['const', 1e-4]], ['CH4', ['array', [1e-5, 1e-3]]]],
-            'contribs': case['contribs']}
+            'contribs': [['flat', {'flat_mix_ratio': FLAT}] if c == 'flat' else c for c in case['contribs']]}
 
 
 def run(case, ktab):
@@ -134,6 +143,8 @@ def case_fn(case):
             s = rayleigh_sigma_from_name(g, wn)
             if s is not None:
                 sig_o += s[None, :] * np.asarray(mk.chemistry.get_gas_mix_profile(g), float)[:, None]
+    if 'flat' in case['contribs']:
+        sig_o += FLAT
     if case['kind'] == 'transmission':
         zb = np.asarray(mk.altitude_boundaries, float)
         Rp, Rs = mk.planet.fullRadius, mk.star.radius
